@@ -36,6 +36,7 @@ def shards(tier, seed):
 		                reps=5 if tier == 'quick' else 50, env={'OMP_NUM_THREADS': '16', 'OMP_WAIT_POLICY': 'active' if active else 'passive'}))
 	for i in range(2 if tier == 'quick' else 8):
 		out.append(dict(name=f'siglist-history-{i}', kind='slhist', sub=300 + i, nhist=15 if tier == 'quick' else 60, env={'OMP_NUM_THREADS': '4'}))
+	out.append(dict(name='large-collections', kind='large', sub=900, rounds=4 if tier == 'quick' else 30, env={'OMP_NUM_THREADS': '16'}))
 	out.append(dict(name='same-file-operands', kind='samefile', sub=800, rounds=6 if tier == 'quick' else 60))
 	out.append(dict(name='two-threads', kind='twothreads', sub=700, rounds=6 if tier == 'quick' else 60, env={'OMP_NUM_THREADS': '4'}))
 	out.append(dict(name='asan-cfg', kind='cfg', sub=500, ncoll=3 if tier == 'quick' else 10, nconf=40 if tier == 'quick' else 120, reps=2, sanitizer='asan',
@@ -300,6 +301,8 @@ def run_shard(sh, ctx):
 		return run_two_threads(sh, ctx, gm)
 	if sh['kind'] == 'samefile':
 		return run_same_file(sh, ctx, gm)
+	if sh['kind'] == 'large':
+		return run_large(sh, ctx, gm)
 
 	from gambit._cython.threads import omp_set_num_threads, omp_get_max_threads, get_thread_ids
 	rng = random.Random(f'C05-{ctx.seed}-{sh["sub"]}')
@@ -363,12 +366,15 @@ def run_tsan(sh, ctx, gm):
 	rng = random.Random(f'C05-tsan-{ctx.seed}')
 	keep = []
 	for ci in range(sh['ncoll']):
-		coll = gen_collection(rng, rng.choice([5, 17, 40]))
+		# the last collection is large (a threshold on the number of references may decide whether a thread team is started at all)
+		coll = gen_collection(rng, rng.choice([5, 17, 40])) if ci < sh['ncoll'] - 1 else [sorted(rng.sample(range(400), rng.randint(0, 12))) for _ in range(rng.choice([1030, 2100, 4200]))]
+		if ci == sh['ncoll'] - 1:
+			ctx.count('tsan_large_collections')
 		dt = rng.choice(['u2', 'u4', 'u8'])
 		arrs = [np.array(s, dtype=dt) for s in coll]
 		sa = SignatureArray(arrs, None, dtype=np.dtype(dt))
 		keep.append(sa)
-		for k in range(sh['nconf']):
+		for k in range(sh['nconf'] if len(coll) < 1000 else 6):
 			q = np.array(rng.choice(coll), dtype=rng.choice(['u2', 'u4', 'u8']))
 			omp_set_num_threads(rng.choice([2, 4, 8]))
 			out = np.full(len(sa), np.nan, dtype='f4')
@@ -430,6 +436,33 @@ def run_siglist_history(sh, ctx, gm):
 			if not cmp_bits(ctx, got, exp, 'cell-bits', f'{fn} on a SignatureList after {op}', w):
 				break
 		ctx.case(('slhist', sh['sub'], h, trace), nontrivial=True, sample=dict(history=trace) if h == 0 else None)
+
+
+def run_large(sh, ctx, gm):
+	"""Thousands of references in one call (a real database has tens of thousands), many threads, repeated: sizes on both sides of
+	1024, 2048, 4096 and 2^16 / the default chunk size, small signatures so that the threads finish close together."""
+	from gambit._cython.threads import omp_set_num_threads
+	from gambit.sigs.base import SignatureArray
+	rng = random.Random(f'C05-large-{ctx.seed}')
+	for rd in range(sh['rounds']):
+		n = rng.choice([1023, 1024, 1025, 2049, 3000, 4097, 6000] + ([66000] if ctx.tier == 'thorough' else []))
+		span = rng.choice([40, 400])
+		coll = [sorted(rng.sample(range(span), rng.randint(0, 10))) for _ in range(n)]
+		dt = rng.choice(['u2', 'u4', 'u8'])
+		arrs = [np.array(s, dtype=dt) for s in coll]
+		sa = SignatureArray(arrs, None, dtype=np.dtype(dt))
+		qs = [np.array(rng.choice(coll), dtype=rng.choice(['u2', 'u4', 'u8'])) for _ in range(3)]
+		exp = oracle_matrix(gm, qs, arrs)
+		for threads in (16, 8, 2, 1):
+			omp_set_num_threads(threads)
+			for rep in range(3 if threads > 1 else 1):
+				w = dict(n=n, dtype=dt, threads=threads, repetition=rep)
+				ctx.case(('large', rd, n, threads, rep), nontrivial=True, sample=w if rd == 0 and rep == 0 and threads == 16 else None)
+				ctx.count(f'large_collection_calls:threads={threads}')
+				got = gm.jaccarddist_matrix(qs, sa, chunksize=rng.choice([None, 1000, 5000])) if rep % 2 else np.stack([gm.jaccarddist_array(q, sa) for q in qs])
+				if not cmp_bits(ctx, got, exp, 'cell-bits', f'{n} references, {threads} threads', w):
+					break
+		ctx.seen('large_collection_sizes', n)
 
 
 def run_same_file(sh, ctx, gm):
@@ -588,7 +621,7 @@ def finalize(merged, tier, seed, inconclusive):
 	for k in CONTAINERS:
 		if c.get(f'container:{k}', 0) == 0:
 			inconclusive.append(f'container never exercised: {k}')
-	for n in ['calls:array', 'calls:matrix', 'calls:pairwise', 'canary_checks', 'repetitions', 'index_kind:repeats', 'chunking:1', 'chunking:>n', 'pairwise:flat', 'pairwise:square', 'wide_queries_beyond_narrow_reference_range', 'siglist_history_steps', 'container:pylist-mixed', 'two_thread_rounds']:
+	for n in ['calls:array', 'calls:matrix', 'calls:pairwise', 'canary_checks', 'repetitions', 'index_kind:repeats', 'chunking:1', 'chunking:>n', 'pairwise:flat', 'pairwise:square', 'wide_queries_beyond_narrow_reference_range', 'siglist_history_steps', 'container:pylist-mixed', 'two_thread_rounds', 'large_collection_calls:threads=16', 'tsan_large_collections']:
 		if c.get(n, 0) == 0:
 			inconclusive.append(f'class never observed: {n}')
 	tc = merged['sets'].get('thread_counts', set())
